@@ -94,11 +94,11 @@ Definition consistency_ref_proof (L : list bytes) (i j : N) : list bytes :=
 
 Theorem aht_consistency_proof_is_ref (ops : list aop) (i j : N) :
   let t := aht_run H ops in
-  i <= j -> 1 <= j -> j <= size t ->
+  1 <= i -> i <= j -> j <= size t ->
   consistency_proof t i j = Ok (consistency_ref_proof (final_payloads ops) i j).
 Proof.
-  intros t Li L1 Lj. destruct (aht_run_inv H ops) as [I P]. fold t in I, P. fold (final_payloads ops) in P.
-  rewrite <- P. apply (consistency_proof_ok H t i j I Li L1 Lj).
+  intros t L1 Li Lj. destruct (aht_run_inv H ops) as [I P]. fold t in I, P. fold (final_payloads ops) in P.
+  rewrite <- P. apply (consistency_proof_ok H t i j I L1 Li Lj).
 Qed.
 
 Theorem consistency_complete (L : list bytes) (i j : N) :
@@ -143,18 +143,12 @@ Proof.
       destruct (n =? 0); [reflexivity|]. destruct (size t1 =? 0); [reflexivity|].
       destruct (N.ltb_spec (size t1) n); [reflexivity | lia].
   - intros i j. unfold inclusion_proof. rewrite <- Sz.
-    destruct (N.ltb_spec j i); [reflexivity|]. destruct (N.ltb_spec (size t1) j); [reflexivity|].
-    destruct (N.eqb_spec j 0); [reflexivity|].
-    assert (G : forall i', 1 <= i' -> i' <= j ->
-              inclusion_loop t1 (height_of j) i' j [] = inclusion_loop t2 (height_of j) i' j []).
-    { intros i' A B.
-      rewrite !(inclusion_loop_ok H) by (rewrite ?base_top; auto; lia). rewrite EP. reflexivity. }
-    destruct (N.eq_dec i 0) as [->|NZ].
-    + rewrite !inclusion_loop_i0. apply G; lia.
-    + apply G; lia.
+    destruct (N.eqb_spec i 0); [reflexivity|]. destruct (N.ltb_spec j i); [reflexivity|]. cbn [orb].
+    destruct (N.ltb_spec (size t1) j); [reflexivity|].
+    rewrite !(inclusion_loop_ok H) by (rewrite ?base_top; auto; lia). rewrite EP. reflexivity.
   - intros i j. unfold consistency_proof. rewrite <- Sz.
-    destruct (N.ltb_spec j i); [reflexivity|]. destruct (N.ltb_spec (size t1) j); [reflexivity|].
-    destruct (N.eqb_spec j 0); [reflexivity|].
+    destruct (N.eqb_spec i 0); [reflexivity|]. destruct (N.ltb_spec j i); [reflexivity|]. cbn [orb].
+    destruct (N.ltb_spec (size t1) j); [reflexivity|].
     rewrite !(consistency_loop_ok H) by (auto; lia). rewrite EP. reflexivity.
 Qed.
 
